@@ -3,15 +3,18 @@ from __future__ import annotations
 
 import random
 
+from lib import model
 from lib.framework import Prop, canon, res_of
 from oracle import rfc4512
 from props.schema_common import CHAIN_CMD, KINDS, U, parse_impl, to_list, to_obj
+
+WF_CMD = {"object_class": 320, "attribute_type": 321, "dit_content_rule": 322}
 
 
 class C16(Prop):
     id = "C16"
     prop_file = "Props/C16"
-    level = "other"
+    level = "proof"
     quick_n = 2000
     thorough_n = 50000
     case_timeout = 20.0
@@ -67,6 +70,27 @@ class C16(Prop):
         if canon(to_list(c["kind"], ref)) != canon(to_list(c["kind"], c["v"])):
             return f"text form denotes a different definition under the RFC 4512 grammar: {text!r}"
         return None
+
+    def extra_checks(self, tier, seed, ctx):
+        """The round-trip theorems assume executable well-formedness conditions (Schema/WfDec.v); every description the
+        RFC 4512 generator produces must satisfy them, otherwise the theorems say nothing about it."""
+        if not ctx["build"].ok:
+            return []
+        cases = ctx["cases"]
+        ans = model.run_batch([[WF_CMD[c["kind"]], to_list(c["kind"], c["v"])] for c in cases])
+        out = []
+        self.covered = 0
+        for c, a in zip(cases, ans):
+            if a == 1 or a is True:
+                self.covered += 1
+            else:
+                out.append((c, f"the hypotheses of the C16 round-trip theorem do not cover this valid description (wf = {a!r})"))
+                if len(out) >= 5:
+                    break
+        return out
+
+    def extra_evidence(self, ctx):
+        return {"descriptions_meeting_theorem_hypotheses": getattr(self, "covered", 0)}
 
     def classify(self, c):
         return c["kind"]
